@@ -245,7 +245,7 @@ func isInside(p string) bool {
 	switch p {
 	case "signal.setSlow.locked", "signal.setSlow.err", "signal.setSlow.ch", "signal.setSlow.stored", "signal.setSlow.unlock",
 		"signal.signalSlow.locked", "signal.signalSlow.made", "signal.signalSlow.unlock",
-		"chan.doSlow.locked", "chan.doSlow.store":
+		"chan.doSlow.locked", "chan.doSlow.init", "chan.doSlow.store":
 		return true
 	}
 	return false
